@@ -1341,7 +1341,10 @@ func (e *Engine) jump(st *State, from, to *ssa.BasicBlock, k cont) {
 	if c := st.fr.contract; c != nil && st.dry == nil {
 		for _, li := range loops {
 			ls := c.Loops[li.ordinal]
-			if ls == nil || !ls.Exhaustive || !li.body[from] || from == li.header || li.body[to] {
+			// "inside the loop": dominated by the header and not yet past the loop's exit block (a block
+			// whose every path leaves the loop is not part of the natural loop body, but a jump from it
+			// to the exit block is still a break)
+			if ls == nil || !ls.Exhaustive || from == li.header || li.body[to] || !li.header.Dominates(from) || to.Dominates(from) {
 				continue
 			}
 			for _, ex := range li.header.Succs {
